@@ -17,7 +17,12 @@ def main(argv=None):
     ap.add_argument("--tier", default=os.environ.get("VERIF_TIER", "quick"), choices=["quick", "thorough"])
     ap.add_argument("--seed", type=int, default=None)
     a = ap.parse_args(argv)
-    sys.exit(harness.run_property(a.prop, a.tier, a.seed))
+    code = harness.run_property(a.prop, a.tier, a.seed)
+    # the verdict is out (lines printed, evidence written): leave without interpreter teardown -- a changed tree whose compiled
+    # kernel wrote past a buffer during a native replay would otherwise abort in free() and replace the exit code by 134
+    sys.stdout.flush()
+    sys.stderr.flush()
+    os._exit(code)
 
 
 if __name__ == "__main__":
